@@ -36,6 +36,10 @@ func main() {
 		// development aid (seeded-change evaluation on a scratch worktree); registered commands never set it
 		repoDir = r
 	}
+	if d := os.Getenv("VERIF_DIR"); d != "" {
+		// development aid (background runs from a snapshot of /verif); registered commands never set it
+		verifDir = d
+	}
 	if len(os.Args) < 2 {
 		usage()
 	}
